@@ -455,12 +455,22 @@ type l2Env struct {
 	ntx   int
 	fam   string
 	stop  bool // a Stop is part of the scenario: ErrBroadcasterStopped is a legal result
+	// skipStop: the scenario found a violation that makes Stop unlikely to
+	// return (C17's subject); the child process simply exits.
+	skipStop bool
+	// startWait overrides awaitRebroadcast's 10 s wait for the round to start
+	// (0 = 10 s), for callers that already waited.
+	startWait time.Duration
 }
 
 func l2Family(k int) string {
 	switch {
 	case k == 0:
 		return "fixed-noreq-reject"
+	case k == 12:
+		return "cosub-fixed"
+	case k >= 13 && k <= 15, k >= 16 && k%4 == 3:
+		return "cosub"
 	case k%4 == 2:
 		return "rebroadcast"
 	case k%8 == 5:
@@ -480,11 +490,19 @@ func L2Scenario(seed int64, k int, res *l2.Result) {
 	e := &l2Env{seed: seed, k: k, rng: rng, w: w, res: res, fam: fam, thr: neutrino.QueryInvalidTxThreshold}
 	e.rc = newL2Rec(w)
 	chainLen := 50 + rng.Intn(101)
+	if coIsFamily(fam) {
+		chainLen = coPlanFor(seed, k).ChainLen
+	}
 	trunk := w.G.Extend(w.G.Genesis, chainLen, chaingen.PaceNormal)
 	e.tip = trunk[len(trunk)-1]
 	np := 2 + rng.Intn(5)
 	if k == 0 {
 		np = 4
+	}
+	var cop coPlan
+	if coIsFamily(fam) {
+		cop = coPlanFor(seed, k)
+		np = cop.Peers
 	}
 	for i := 0; i < np; i++ {
 		p := w.AddPeer(e.tip)
@@ -500,6 +518,9 @@ func L2Scenario(seed int64, k int, res *l2.Result) {
 		return
 	}
 	defer func() {
+		if e.skipStop {
+			return
+		}
 		if ok, _ := w.StopClient(60 * time.Second); !ok && !e.stop {
 			res.Inconcl("final Stop did not return within 60 s (C17's subject)")
 		}
@@ -525,6 +546,8 @@ func L2Scenario(seed int64, k int, res *l2.Result) {
 		e.rebroadcast()
 	case "stop":
 		e.stopInFlight()
+	case "cosub", "cosub-fixed":
+		e.coSubscribers(cop)
 	}
 	e.finish()
 }
@@ -772,7 +795,11 @@ func (e *l2Env) awaitRebroadcast(seq int64, want []*l2Call) (missed []*l2Call, c
 	// The round has to start: some pending transaction is announced within
 	// 10 s of the client reporting the block. Its transactions are then sent
 	// one after the other, each query bounded by BroadcastTimeout.
-	started := l2.WaitFor(10*time.Second, func() bool {
+	sw := 10 * time.Second
+	if e.startWait > 0 {
+		sw = e.startWait
+	}
+	started := l2.WaitFor(sw, func() bool {
 		for _, c := range want {
 			if len(e.invSeen(c.Hash, seq)) > 0 {
 				return true
@@ -974,6 +1001,12 @@ func (e *l2Env) rebroadcast() {
 	// log stands still.
 	e.settle()
 	_, rej := pending()
+	e.rejectedNeverAgain(rej)
+}
+
+// rejectedNeverAgain: a transaction whose SendTransaction returned an error
+// must not have been announced after any block that followed the call.
+func (e *l2Env) rejectedNeverAgain(rej []*l2Call) {
 	for _, c := range rej {
 		// Only announcements after a block that followed the call's return
 		// count (the invs of the call itself are all older than that).
